@@ -195,11 +195,12 @@ def oracle_seq(case, out):
         def terminate(a):
             if a not in running:
                 return
-            for c in children.get(a, []):
-                # the parent disowns (unwatches) its children before stopping them
-                watching.get(a, {}).pop(c, None)
-                terminate(c)
+            # from the moment its shutdown begins the actor is not running any more and it gives up all its own
+            # watches (it unwatches everything first), then its children are stopped, then its watchers are told
             running.discard(a)
+            watching[a] = {}
+            for c in children.get(a, []):
+                terminate(c)
             for w in sorted(running):
                 if a in watching.get(w, {}):
                     if w not in suspended:       # "every watcher that is still running"
@@ -219,10 +220,11 @@ def oracle_seq(case, out):
         elif kind == "restart":
             a = op["a"]
             if a in running:
+                mine = dict(watching.get(a, {}))
                 terminate(a)          # its watchers are told (the restart shuts the actor down first)
                 running.add(a)
-                for x in watching.get(a, {}):
-                    watching[a][x] = True   # it never called UnWatch: by the statement it still watches
+                # it never called UnWatch: by the statement it still watches what it watched
+                watching[a] = {x: True for x in mine}
         elif kind == "suspend":
             suspended.add(op["a"])
         elif kind == "reinstate":
@@ -413,7 +415,7 @@ def run(ctx):
     corpus = json.load(open(os.path.join("corpus", "C10", "cases.json")))
     for c in corpus:
         seq_cases.append({"n": c["n"], "ops": c["ops"], "origin": "corpus"})
-    for i in range(700 if ctx.thorough else 90):
+    for i in range(400 if ctx.thorough else 100):
         malformed = rng.random() < 0.15
         c = gen_seq_case(rng, malformed)
         c["origin"] = "malformed" if malformed else "structured"
@@ -421,7 +423,7 @@ def run(ctx):
     for i, c in enumerate(seq_cases):
         c["id"] = i
     tree_cases = []
-    for i in range(1200 if ctx.thorough else 150):
+    for i in range(800 if ctx.thorough else 150):
         malformed = rng.random() < 0.2
         c = gen_tree_case(rng, malformed)
         c["id"] = i
@@ -439,7 +441,7 @@ def run(ctx):
             os.remove(p)
     ctx.log("running %d sequences, %d tree cases and the race rounds on real actors" % (len(seq_cases), len(tree_cases)))
     rc, out = ctx.go_test("actor", "^TestVerifC10", ["zz_verif_C10_test.go"],
-                          env={"VERIF_C10_ROUNDS": "1500" if ctx.thorough else "150"}, race=False)
+                          env={"VERIF_C10_ROUNDS": "1000" if ctx.thorough else "150"}, race=False, timeout=1800)
     ctx.log("go harness done rc=%d" % rc)
     souts = read_jsonl(os.path.join(ctx.work, "c10_out.jsonl"))
     touts = read_jsonl(os.path.join(ctx.work, "c10_tree_out.jsonl"))
